@@ -113,7 +113,7 @@ def run(prop, repo="/repo"):
     fired = applicable = 0
     # the self-test is bounded in time: mutants and seeds first, then the benign variants; what does not start within the
     # budget is recorded as not run (it says nothing about the tree under test either way)
-    budget = float(os.environ.get("PV_THOROUGH_BUDGET_S", "1200"))
+    budget = float(os.environ.get("PV_THOROUGH_BUDGET_S", "900"))
     report["budget_s"] = budget
 
     def bounded(j):
